@@ -56,7 +56,11 @@ class SiteEffects(StagedEffects):
         return out
 
 
-def ao_forced(body, bb):
+_AO_HELPERS = {}      # path -> True for functions that return Err on every path when append_only == Some(true)
+_AO_ERR_SWITCH = {}   # body path -> {switch block of the `?` on a helper's result: break target}
+
+
+def _base_forced(body, bb):
     r = is_append_only_test(body, bb)
     if r is not None:
         return r[0]
@@ -66,6 +70,87 @@ def ao_forced(body, bb):
     if r is not None:
         return r[0]
     return None
+
+
+def ao_forced(body, bb):
+    f = _base_forced(body, bb)
+    if f is not None:
+        return f
+    return _AO_ERR_SWITCH.get(body.path, {}).get(bb)
+
+
+def compute_ao_helpers(prog, rounds=3):
+    """guard helpers: a function with a Result return type whose every return, once append_only == Some(true) is
+    forced, carries Err (e.g. `fn ensure_not_append_only(cfg) -> RusticResult<()>`). A `?` on the result of such a
+    helper is then itself a guard: under append-only only its error edge is taken. Iterated so that helpers may call
+    helpers."""
+    _AO_HELPERS.clear()
+    _AO_ERR_SWITCH.clear()
+    AO_PREDICATES.clear()
+    # bool predicates decided by the append_only field: `fn is_append_only(&self) -> bool { self.append_only == Some(true) }`
+    for _ in range(2):
+        for b in prog.by_crate["rustic_core"]:
+            if not b.locals or b.locals[0] != "bool" or b.is_closure() or b.path in AO_PREDICATES:
+                continue
+            v = eval_under_append_only(flow.place_expr(b, [0]))
+            if v is None:
+                # `if <test> { true } else { false }` shapes: constant assignments reachable once the test is forced
+                if not any(_base_forced(b, bb) is not None for bb in range(len(b.blocks))):
+                    continue
+                reach = pathsens.reachable_under(b, _base_forced)
+                vals = set()
+                for bb in reach:
+                    for st in b.blocks[bb]["s"]:
+                        if st[0] == "=" and st[1] == [0]:
+                            rv = st[2]
+                            vals.add(rv[1][1].get("v") if rv[0] == "use" and rv[1][0] == "k" else "?")
+                    t = b.blocks[bb]["t"]
+                    if t["k"] == "call" and t.get("dest") == [0]:
+                        vals.add("?")
+                if len(vals) == 1 and isinstance(next(iter(vals)), bool):
+                    v = next(iter(vals))
+            if isinstance(v, bool):
+                AO_PREDICATES[b.path] = v
+    bodies = [b for b in prog.by_crate["rustic_core"] if b.locals and b.locals[0].startswith("std::result::Result<") and not b.is_closure()]
+    for _ in range(rounds):
+        changed = False
+        for b in bodies:
+            if b.path in _AO_HELPERS:
+                continue
+            has_test = any(_base_forced(b, bb) is not None for bb in range(len(b.blocks))) or bool(_AO_ERR_SWITCH.get(b.path))
+            if not has_test:
+                continue
+            reach = pathsens.reachable_under(b, ao_forced)
+            ok = True
+            nret = 0
+            for bb in reach:
+                blk = b.blocks[bb]
+                for st in blk["s"]:
+                    if st[0] == "=" and st[1] == [0]:
+                        rv = st[2]
+                        if not (rv[0] == "agg" and rv[1][0] == "adt" and rv[1][1].endswith("result::Result") and rv[1][2] == "Err"):
+                            ok = False
+                t = blk["t"]
+                if t["k"] == "call" and t.get("dest") == [0] and not callee(t).endswith("::from_residual"):
+                    # tail call: Err only if the callee is itself a helper
+                    if not ("callee" in t and _AO_HELPERS.get(callee(t))):
+                        ok = False
+                if t["k"] == "return":
+                    nret += 1
+            if ok and nret:
+                _AO_HELPERS[b.path] = True
+                changed = True
+        # `?` sites on helper results
+        for b in prog.by_crate["rustic_core"]:
+            for bb, t in b.calls():
+                if "callee" in t and _AO_HELPERS.get(callee(t)):
+                    for (sw, brk) in flow.err_edges(b, bb):
+                        if _AO_ERR_SWITCH.setdefault(b.path, {}).get(sw) != brk:
+                            _AO_ERR_SWITCH[b.path][sw] = brk
+                            changed = True
+        if not changed:
+            break
+    return sorted(_AO_HELPERS)
 
 
 def is_not_disabling_test(body, bb):
@@ -133,6 +218,8 @@ def run(ctx, rep):
     rep.rule("C15.c", "with dry_run flags true no W/RM/CREATE effect is reachable from a function that reads a dry_run flag")
 
     # ---- C15.a -------------------------------------------------------------------------------
+    helpers = compute_ao_helpers(prog)
+    rep.observe(f"append-only guard helpers (always Err under append_only == Some(true)): {[strip_crate(h) for h in helpers]}; bool predicates of the field: { {strip_crate(k): v for k, v in AO_PREDICATES.items()} }")
     allrm = SiteEffects(prog, cg, kinds=("RM",))
     allrm.compute()
     reach_cache = {}
